@@ -27,8 +27,16 @@ def main():
     tdir = os.path.join(VERIF, "build", "target-checked")
     env = dict(os.environ)
     env["CARGO_NET_OFFLINE"] = "true"
-    p = subprocess.run(["cargo", "build", "--offline", "--profile", "checked", "--target-dir", tdir],
-                       cwd=os.path.join(VERIF, "harness"), env=env, capture_output=True, text=True)
+    # whole harness first; if another property's module no longer compiles against /repo, only C05's
+    # own modules (cargo features p05[,p05m], see harness/src/lib.rs)
+    for extra in ([], ["--bin", "rosu_verif", "--no-default-features", "--features", "p05,p05m"],
+                  ["--bin", "rosu_verif", "--no-default-features", "--features", "p05"]):
+        td = tdir + ("-p05" if extra else "")
+        p = subprocess.run(["cargo", "build", "--offline", "--profile", "checked", "--target-dir", td] + extra,
+                           cwd=os.path.join(VERIF, "harness"), env=env, capture_output=True, text=True)
+        if p.returncode == 0:
+            tdir = td
+            break
     open(os.path.join(out, "cargo.log"), "w").write(p.stdout + p.stderr)
     if p.returncode != 0:
         print("checked-profile build failed: " + (p.stdout + p.stderr)[-800:])
